@@ -72,7 +72,21 @@ fn error_cause(e: &str) -> String {
         }
         None => e.chars().take(60).collect(),
     };
-    head.chars().map(|c| if c.is_whitespace() { '-' } else { c }).take(80).collect()
+    // numbers in an error text are values, not causes: collapse every run of digits / sign / point / exponent
+    let mut out = String::new();
+    let mut in_number = false;
+    for c in head.chars() {
+        if c.is_ascii_digit() || (in_number && matches!(c, '.' | 'e' | 'E' | '+' | '-')) {
+            if !in_number {
+                out.push('N');
+                in_number = true;
+            }
+        } else {
+            in_number = false;
+            out.push(if c.is_whitespace() { '-' } else { c });
+        }
+    }
+    out.chars().take(80).collect()
 }
 
 /// Round trip one value on both paths; classify {equal, altered, error}.
